@@ -184,7 +184,7 @@ def propose (x : Gen) (w : World) : Op × Gen :=
   let k := k_
   let ns := st.subs.length
   if ns == 0 then
-    let (n, x) := x.below 4
+    let (n, x) := x.below 8
     let (c, x) := x.below 3
     (if c == 0 then .addSub k else .setNumSubs k (n + 1), x)
   else
@@ -344,7 +344,9 @@ def nextOp (x : Gen) (w : World) : Op × Gen :=
 
 def genSeq (out : IO.FS.Stream) (seed : Nat) (idx : Nat) (len : Nat) (full : Bool) : IO Unit := do
   let mut x : Gen := { g := ⟨UInt64.ofNat (seed * 1000003 + idx * 7919 + 17)⟩ }
-  let (ns, x1) := x.below 4
+  let (ns0, x1) := x.below 4
+  let (big, x1) := x1.below 5                 -- one sequence in five: 5–8 subsystems (PerSubsystemInfo array regrows)
+  let ns := if big == 0 then ns0 + 4 else ns0
   let (gl, x1) := x1.below 14
   x := { x1 with goal := if gl < 9 then gl + 1 else 0 }
   let mut w : World := { sts := [some { subs := List.replicate (ns + 1) {} }] }
